@@ -25,7 +25,8 @@ RULE = ("seeded history of 0-3 commits, then one commit under test (append in 3 
         "class armed after the first (cleanup removes fail / lock release fails / marker deletes fail). quick "
         "samples k, thorough sweeps every k. One evaluation = one (history, op, fault mode, k). Distinct = SHA-1 of "
         "the write/lock/pointer events; non-trivial = the fault fired and the commit did not simply succeed "
-        "unaffected, or fired after the pointer flip.")
+        "unaffected, or fired after the pointer flip. S3 modes errafter:SlowDown* / errafter:ServiceUnavailable*: the request landed, its "
+        "response was lost and every re-send is throttled until the retry budget is spent.")
 ASSUMPTIONS = common.BASE_ASSUMPTIONS + [
     "os/fcntl calls fail only with OSError (os.path.exists never raises: a failing stat reads as False); S3 calls "
     "only with botocore exception types",
